@@ -663,6 +663,19 @@ def r14_a(run, fx, floors):
             if s_used is None:
                 run.fail("R14-A", key, "element offset %s is not index * stride" % sym.show(off)[:80], b.loc(t))
                 continue
+            if callee_is(t, "ReadScope::<'a>::offset") and not callee_is(t, "ReadScope::<'a>::offset_length"):
+                # an open-ended window is fine for the fixed-size kernels (their availability is checked, R14-D); an element decoder of
+                # the client (`T::read_dep`) must get exactly its element, or it can read its neighbours
+                leaks = []
+                for bj, t2 in b.calls():
+                    p2 = t2["callee"].get("path") or ""
+                    if p2.endswith(("ReadBinaryDep::read_dep", "ReadBinary::read")) and t2["args"]:
+                        if any(x[0] == "call" and x[3] == bi and (x[1] or "").endswith("ReadScope::<'a>::offset") for x in sym.walk(prov.op(t2["args"][0]))):
+                            leaks.append(t2)
+                if leaks:
+                    run.fail("R14-A", key, "the element decoder is handed a cursor on scope.offset(i * S), an open-ended window: element i can read the bytes "
+                             "of the elements after it (the window must be offset_length(i * S, S))", b.loc(t))
+                    continue
             if callee_is(t, "ReadScope::<'a>::offset_length"):
                 ln = is_stride(prov.op(t["args"][2]))
                 if ln != s_used:
